@@ -1,14 +1,9 @@
 SPECIFICATION Spec
 CONSTANTS
-  NB = 2
-  IL = 2
-  RowSz = 2
-  Width = 2
-  Track = TRUE
-  Deviations <- NoDev
+  Config <- DesignN2
   PortCap = 2
   PostCap = 1
-  Payloads <- MCSmall
+  Payloads <- MCPayloads
   MaxReq = 3
 INVARIANTS TypeOK OneRspEach ReadSeesLatestEarlierWrite SameAddrInArrivalOrder MaskedWriteTouchesOnlyEnabled AllAnswered
 PROPERTIES FlatSpec
